@@ -250,6 +250,8 @@ def handle (c : Case) : CaseOut := Id.run do
       -- inadmissible non-root box (Props.C12.iter_sorted), where the queue contract does not determine the order
       out := out.push ((if fl == "1" || mInadm == 0 then "D" else "F") ++ s!" sorted={fl}")
       out := out.push (tagged "F seq" (showSeq (canonRuns seq)))
+      -- `nth` / `skip` / `step_by` / `take.last` of the real iterator agree with its own `next()` sequence
+      out := out.push "D adapt=ok"
     | .panic => modelNote := "model reached a panic branch"
     | .outOfFuel => modelNote := "model-out-of-fuel (iterator)"
   -- ---------------------------------------------------------------- judge (I lines only)
@@ -273,8 +275,11 @@ def handle (c : Case) : CaseOut := Id.run do
       let setOk := lineItems c.impl "D set" == some (showSeq (seq.mergeSort pairLe))
       let isSorted := Nearest.nondecB (seq.map (·.2))
       let flagOk := (lineItems c.impl s!"D sorted={if isSorted then 1 else 0}").isSome
+      let adaptBad := c.impl.toList.find? fun l => l.startsWith "D adapt=" && l != "D adapt=ok"
       if !(cnt && setOk && flagOk) then
         verdict := .fail "harness: D lines inconsistent with the yielded sequence"
+      else if let some l := adaptBad then
+        verdict := .fail s!"iterator adaptor hands out another item than iterating with next(): {l.drop 8} (n={n}, query {p.q.lat} {p.q.lon})"
       else if !(Nearest.completeB ids dist seq) then
         -- describe the first problem
         let outIds := (seq.map (·.1)).mergeSort (fun a b => decide (a ≤ b))
